@@ -531,7 +531,7 @@ String File::getRelativePath(const String& from, const String& to)
   String simTo = simplifyPath(to);
   if(simFrom == simTo)
     return String(".");
-  if(simFrom != "/")
+  if(!simFrom.isEmpty() && simFrom != "/")
     simFrom.append('/');
   if(String::compare((const char*)simTo, (const char*)simFrom, simFrom.length()) == 0)
     return String((const char*)simTo + simFrom.length(), simTo.length() - simFrom.length());
@@ -541,7 +541,14 @@ String File::getRelativePath(const String& from, const String& to)
     simFrom.resize(simFrom.length() - 1);
     const char* newEnd = simFrom.findLast('/');
     if(!newEnd)
+    {
+      if(!simFrom.isEmpty() && *(const char*)simTo != '/')
+      { // relative paths without a common first component
+        result.append(simTo);
+        return result;
+      }
       break;
+    }
     simFrom.resize((newEnd - (const char*)simFrom) + 1);
     if(String::compare((const char*)simTo, (const char*)simFrom, simFrom.length()) == 0)
     {
